@@ -304,3 +304,21 @@ def x_snprintf(s, fr, ins, a):
         _putbytes(s, buf, bs)
     return len(text)
 PATTERNS += [(re.compile(r'^@(snprintf|__snprintf_chk)$'), x_snprintf)]
+
+# ---- libc byte-string helpers on concrete bytes
+def x_memcmp(s, fr, ins, a):
+    n = a[2]
+    if not isinstance(n, int): raise s.ExecError('symbolic memcmp length')
+    b1 = _bytes(s, a[0], n) if n else []; b2 = _bytes(s, a[1], n) if n else []
+    r = (b1 > b2) - (b1 < b2)
+    return r & 0xffffffff
+def x_strlen(s, fr, ins, a): return len(s.cstring(a[0]))
+def x_memchr(s, fr, ins, a):
+    from irsym import Ptr, NULL
+    n = a[2]; c = a[1] & 0xff
+    for i, b in enumerate(_bytes(s, a[0], n) if n else []):
+        if b == c: return Ptr(a[0].obj, a[0].off + i)
+    return NULL
+def x_strcmp(s, fr, ins, a):
+    b1 = s.cstring(a[0]); b2 = s.cstring(a[1]); return ((b1 > b2) - (b1 < b2)) & 0xffffffff
+PATTERNS += [(re.compile(r'^@memcmp$'), x_memcmp), (re.compile(r'^@bcmp$'), x_memcmp), (re.compile(r'^@strlen$'), x_strlen), (re.compile(r'^@memchr$'), x_memchr), (re.compile(r'^@strcmp$'), x_strcmp)]
